@@ -430,10 +430,12 @@ fn stack(out: &mut Vec<GSpec>) {
     for (quick, list) in [(true, quick_exprs), (false, thorough_exprs)] {
         let ok: Vec<&String> = list.iter().filter(|e| valid_body('N', e, &helpers)).collect();
         eprintln!("gramgen: stack/{}: {} of {}", if quick { "quick" } else { "thorough" }, ok.len(), list.len());
-        for (ci, chunk) in ok.chunks(170).enumerate() {
+        for (ci, chunk) in ok.chunks(85).enumerate() {
             let mut rules = helpers.clone();
             for (k, e) in chunk.iter().enumerate() {
                 rules.push(RuleSpec::new(&format!("e{}", k), 'N', e));
+                // atomic twin: the same expression matched through the check path
+                rules.push(RuleSpec::new(&format!("a{}", k), 'A', e));
             }
             out.push(GSpec {
                 id: format!("stack_{}{}", if quick { "q" } else { "t" }, ci),
@@ -590,6 +592,451 @@ fn utf8(out: &mut Vec<GSpec>) {
     }
 }
 
+
+/// F-tree: recursive and wide grammars (pair trees, traversal helpers, getters).
+fn tree(out: &mut Vec<GSpec>) {
+    let rules1 = vec![
+        RuleSpec::helper("WHITESPACE", 'N', "\" \""),
+        RuleSpec::new("t", 'N', "\"(\" ~ t* ~ \")\""),
+        RuleSpec::new("ts", 'S', "\"(\" ~ (ts | a)* ~ \")\""),
+        RuleSpec::new("tc", 'C', "\"(\" ~ tc* ~ \")\""),
+        RuleSpec::new("tx", 'X', "\"(\" ~ tx* ~ \")\""),
+        RuleSpec::new("tn", 'N', "\"(\" ~ (ts | tn | a)* ~ \")\""),
+        RuleSpec::new("a", 'N', "\"a\""),
+        RuleSpec::new("l", 'N', "a ~ l?"),
+        RuleSpec::new("w", 'N', "a ~ a ~ a ~ y*"),
+        RuleSpec::new("y", 'N', "\"(\" ~ \")\""),
+        RuleSpec::new("sw", 'S', "a ~ w?"),
+        RuleSpec::new("la", 'N', "&a ~ a ~ !a"),
+        RuleSpec::new("e", 'N', "a* ~ EOI"),
+        RuleSpec::new("m", 'N', "(a | y)+"),
+        RuleSpec::new("n", 'N', "(a ~ y)? ~ a"),
+        RuleSpec::new("p", 'N', "PUSH(a) ~ y ~ POP"),
+        RuleSpec::new("at", 'A', "a ~ y"),
+        RuleSpec::new("ct", 'C', "a ~ y ~ xt?"),
+        RuleSpec::new("xt", 'X', "a ~ a"),
+        RuleSpec::new("top", 'N', "t ~ l? ~ at ~ tc?"),
+        RuleSpec::new("deep", 'N', "sw ~ (la | m)? ~ e"),
+        RuleSpec::new("opt", 'N', "a? ~ y? ~ a?"),
+        RuleSpec::new("cnt", 'N', "a{2,3} ~ y{,2}"),
+    ];
+    assert!(valid(&rules1));
+    out.push(GSpec {
+        id: "tree_1".into(),
+        family: "tree".into(),
+        quick: true,
+        rules: rules1,
+        alphabet: "()a ".into(),
+        max_len: 6,
+        max_len_thorough: 8,
+        tree: true,
+        getters: true,
+        compare: true,
+        all_forms: true,
+        ..Default::default()
+    });
+    // silent WHITESPACE, comments visible, no skip at all
+    for (id, skip) in [
+        ("tree_2", vec![RuleSpec::helper("WHITESPACE", 'S', "\" \""), RuleSpec::helper("COMMENT", 'N', "\"#\"")]),
+        ("tree_3", vec![]),
+    ] {
+        let mut rules = skip.clone();
+        rules.extend(vec![
+            RuleSpec::new("t", 'N', "\"(\" ~ (t | a)* ~ \")\""),
+            RuleSpec::new("a", 'N', "\"a\""),
+            RuleSpec::new("b", 'A', "\"a\"+"),
+            RuleSpec::new("l", 'N', "a ~ l?"),
+            RuleSpec::new("w", 'N', "a ~ b? ~ (a | t)*"),
+            RuleSpec::new("s", 'S', "a ~ (\"(\" ~ s ~ \")\")?"),
+            RuleSpec::new("u", 'N', "s ~ EOI"),
+            RuleSpec::new("c", 'C', "a ~ t"),
+            RuleSpec::new("x", 'X', "c ~ a"),
+            RuleSpec::new("k", 'N', "!b ~ t | &a ~ b"),
+        ]);
+        assert!(valid(&rules));
+        out.push(GSpec {
+            id: id.into(),
+            family: "tree".into(),
+            quick: true,
+            rules,
+            alphabet: if id == "tree_2" { "()a #".into() } else { "()a".into() },
+            max_len: if id == "tree_2" { 5 } else { 7 },
+            max_len_thorough: if id == "tree_2" { 7 } else { 9 },
+            tree: true,
+            getters: true,
+            compare: true,
+            ..Default::default()
+        });
+    }
+    // WHITESPACE / COMMENT built from sub-rules
+    let rules = vec![
+        RuleSpec::helper("WHITESPACE", 'S', "sp"),
+        RuleSpec::new("sp", 'N', "\" \""),
+        RuleSpec::helper("COMMENT", 'N', "\"#\" ~ ci"),
+        RuleSpec::new("ci", 'N', "\"#\""),
+        RuleSpec::new("a", 'N', "\"a\""),
+        RuleSpec::new("r", 'N', "a ~ a"),
+        RuleSpec::new("rr", 'N', "a*"),
+        RuleSpec::new("rx", 'X', "a+"),
+        RuleSpec::new("ra", 'A', "a ~ r"),
+    ];
+    assert!(valid(&rules));
+    out.push(GSpec {
+        id: "tree_wsub".into(),
+        family: "tree".into(),
+        quick: true,
+        rules,
+        alphabet: "a #".into(),
+        max_len: 6,
+        max_len_thorough: 8,
+        tree: true,
+        ..Default::default()
+    });
+}
+
+/// Mention shapes of a referenced rule (C16).
+fn mention(out: &mut Vec<GSpec>) {
+    let helpers = vec![
+        RuleSpec::helper("x", 'N', "\"a\""),
+        RuleSpec::helper("xs", 'S', "\"a\""),
+        RuleSpec::helper("xa", 'A', "\"a\""),
+        RuleSpec::helper("y", 'N', "\"b\""),
+    ];
+    // one-mention wrappers
+    let w1: Vec<Box<dyn Fn(&str) -> String>> = vec![
+        Box::new(|e| e.to_string()),
+        Box::new(|e| format!("({})?", e)),
+        Box::new(|e| format!("({})*", e)),
+        Box::new(|e| format!("({})+", e)),
+        Box::new(|e| format!("&({}) ~ ANY", e)),
+        Box::new(|e| format!("PUSH({})", e)),
+        Box::new(|e| format!("({}) ~ \"b\"", e)),
+        Box::new(|e| format!("\"b\" ~ ({})", e)),
+        Box::new(|e| format!("({}) | \"b\"", e)),
+        Box::new(|e| format!("\"b\" | ({})", e)),
+        Box::new(|e| format!("\"b\"? ~ ({}) ~ \"b\"?", e)),
+    ];
+    let mut shapes: Vec<String> = vec![];
+    for f in &w1 {
+        shapes.push(f("X"));
+    }
+    for f in &w1[1..] {
+        for g in &w1[1..] {
+            shapes.push(f(&format!("({})", g("X"))));
+        }
+    }
+    // several mentions
+    for s in [
+        "X ~ X",
+        "X | X",
+        "X ~ X?",
+        "X* ~ X",
+        "X? ~ \"b\" ~ X+",
+        "(X ~ X)*",
+        "(X | X)?",
+        "(X ~ \"b\" ~ X)+",
+        "(X | \"b\") ~ X*",
+        "X ~ (X | \"b\" ~ X)",
+        "(X ~ X)? ~ X",
+        "PUSH(X ~ X) ~ X",
+        "(X? ~ \"b\")? ~ X",
+        "!X ~ \"b\" ~ X",
+        "&(X ~ X) ~ X ~ !X",
+        "X ~ y ~ X",
+        "(X | y)* ~ y?",
+        "(X ~ y)* ~ X?",
+        "X{2}",
+        "X{1,3}",
+        "(X ~ y){,2} ~ X",
+    ] {
+        shapes.push(s.to_string());
+    }
+    // depth 3
+    for f in [&w1[1], &w1[2], &w1[8]] {
+        for g in [&w1[1], &w1[2], &w1[6], &w1[8]] {
+            for h in [&w1[1], &w1[2], &w1[5], &w1[9]] {
+                shapes.push(f(&format!("({})", g(&format!("({})", h("X"))))));
+            }
+        }
+    }
+    let mut k = 0usize;
+    let mut all: Vec<(bool, RuleSpec)> = vec![];
+    for (si, s) in shapes.iter().enumerate() {
+        for (xi, x) in ["x", "xs", "xa", "ANY"].iter().enumerate() {
+            let body = s.replace('X', x);
+            if !valid_body('N', &body, &helpers) {
+                continue;
+            }
+            let quick = xi == 0 || si % 4 == xi;
+            all.push((quick, RuleSpec::new(&format!("m{}", k), if si % 5 == 4 { 'S' } else { 'N' }, &body)));
+            k += 1;
+        }
+    }
+    eprintln!("gramgen: mention: {} rules from {} shapes", all.len(), shapes.len());
+    for quick in [true, false] {
+        let list: Vec<&RuleSpec> = all.iter().filter(|(q, _)| *q == quick).map(|(_, r)| r).collect();
+        for (ci, chunk) in list.chunks(120).enumerate() {
+            let mut rules = helpers.clone();
+            rules.extend(chunk.iter().map(|r| (*r).clone()));
+            out.push(GSpec {
+                id: format!("mention_{}{}", if quick { "q" } else { "t" }, ci),
+                family: "mention".into(),
+                quick,
+                rules,
+                alphabet: "ab".into(),
+                max_len: 6,
+                max_len_thorough: 8,
+                getters: true,
+                ..Default::default()
+            });
+        }
+    }
+}
+
+/// F-arity: choices and sequences of arity 2..16, repetitions (C17).
+fn arity(out: &mut Vec<GSpec>) {
+    for (quick, ns) in [(true, vec![2usize, 3, 5, 11, 12, 13]), (false, vec![4, 6, 7, 8, 9, 10, 14, 15, 16])] {
+        for n in ns {
+            let mut rules = vec![
+                RuleSpec::helper("WHITESPACE", 'N', "\" \""),
+                RuleSpec::helper("COMMENT", 'N', "\"#\""),
+                RuleSpec::helper("ka", 'N', "\"a\""),
+                RuleSpec::helper("kb", 'A', "\"a\""),
+            ];
+            // overlapping alternatives: k_i matches a^(n-i); the first alternative that matches wins
+            for i in 0..n {
+                rules.push(RuleSpec::helper(&format!("k{}", i), 'N', &format!("\"a\"{{{}}}", n - i)));
+            }
+            let alts: Vec<String> = (0..n).map(|i| format!("k{}", i)).collect();
+            rules.push(RuleSpec::new("c", 'N', &alts.join(" | ")));
+            rules.push(RuleSpec::new("ca", 'C', &alts.join(" | ")));
+            // sequence of arity n, alternating element rules
+            let elems: Vec<&str> = (0..n).map(|i| if i % 3 == 2 { "kb" } else { "ka" }).collect();
+            rules.push(RuleSpec::new("s", 'N', &elems.join(" ~ ")));
+            rules.push(RuleSpec::new("sx", 'X', &elems.join(" ~ ")));
+            rules.push(RuleSpec::new("r", 'N', "ka*"));
+            rules.push(RuleSpec::new("rp", 'N', "(ka ~ kb)+"));
+            rules.push(RuleSpec::new("rs", 'N', "(ka ~ kb)*"));
+            assert!(valid(&rules), "arity {}", n);
+            // inputs: a^k for the choice; n a's with 0/1 separators in up to 3 positions for the sequence
+            let mut inputs: Vec<String> = vec![];
+            for k in 0..=n + 1 {
+                inputs.push("a".repeat(k));
+            }
+            let seps = ["", " ", "#", " # "];
+            let gaps = n - 1;
+            let mut push_with = |positions: &[(usize, usize)]| {
+                let mut s = String::new();
+                for i in 0..n {
+                    s.push('a');
+                    if i < gaps {
+                        if let Some((_, k)) = positions.iter().find(|(p, _)| *p == i) {
+                            s.push_str(seps[*k]);
+                        }
+                    }
+                }
+                inputs.push(s.clone());
+                inputs.push(format!("{} ", s));
+                inputs.push(s[..s.len() - 1].to_string());
+            };
+            push_with(&[]);
+            for p in 0..gaps {
+                for k in 1..4 {
+                    push_with(&[(p, k)]);
+                }
+            }
+            for p in 0..gaps {
+                for q in p + 1..gaps {
+                    if n <= 8 || (p + q) % 3 == 0 {
+                        push_with(&[(p, 1), (q, 2)]);
+                        push_with(&[(p, 3), (q, 1)]);
+                    }
+                }
+            }
+            inputs.push(" a".to_string());
+            inputs.push("a a a a".to_string());
+            inputs.push("a#a a #a#".to_string());
+            inputs.sort();
+            inputs.dedup();
+            out.push(GSpec {
+                id: format!("arity_{}", n),
+                family: "arity".into(),
+                quick,
+                rules,
+                alphabet: "a #".into(),
+                max_len: 0,
+                max_len_thorough: 0,
+                inputs: Some(inputs),
+                acc: true,
+                tree: true,
+                compare: true,
+                ..Default::default()
+            });
+        }
+    }
+}
+
+/// F-sub: ASCII grammars explored through all three input forms (sub-inputs).
+fn sub(out: &mut Vec<GSpec>) {
+    let skip = vec![RuleSpec::helper("WHITESPACE", 'S', "\" \"")];
+    let bodies = [
+        "\"a\" ~ \"b\"",
+        "(\"a\" | \"ab\")*",
+        "SOI ~ \"a\"+",
+        "\"a\"* ~ EOI",
+        "SOI ~ \"b\"? ~ EOI",
+        "^\"ab\" ~ ANY",
+        "'a'..'b'+ ~ !\"a\"",
+        "&(\"a\" ~ \"b\") ~ ANY{2}",
+        "PUSH(\"a\"+) ~ \"b\" ~ PEEK",
+        "(!(\"ab\" | \"ba\") ~ ANY)*",
+        "(!\"b\" ~ ANY)* ~ \"b\"",
+        "(\"a\" ~ \"b\"?)+ ~ EOI?",
+        "\"a\" ~ (!EOI ~ ANY)*",
+        "(SOI | \"a\") ~ \"b\"",
+        "ANY ~ ANY?",
+        "\"ab\"{1,2}",
+    ];
+    let mut rules = skip.clone();
+    for (k, b) in bodies.iter().enumerate() {
+        rules.push(RuleSpec::new(&format!("e{}", k), 'N', b));
+        rules.push(RuleSpec::new(&format!("a{}", k), 'A', b));
+        rules.push(RuleSpec::new(&format!("c{}", k), 'C', b));
+    }
+    assert!(valid(&rules));
+    out.push(GSpec {
+        id: "sub_1".into(),
+        family: "sub".into(),
+        quick: true,
+        rules,
+        alphabet: "ab ".into(),
+        max_len: 5,
+        max_len_thorough: 6,
+        all_forms: true,
+        compare: true,
+        ..Default::default()
+    });
+}
+
+/// F-unicode: one rule per Unicode property name and per ASCII / NEWLINE built-in (C01).
+fn unicode(out: &mut Vec<GSpec>) {
+    let mut names: Vec<String> = pest::unicode::unicode_property_names().map(|s| s.to_string()).collect();
+    names.sort();
+    // A grammar that references the script property INHERITED does not compile (the imported type
+    // clashes with the const generic parameter INHERITED of every rule struct): known finding of
+    // C11, demonstrated by the compile probe `probe_builtin`; it cannot be part of a shard.
+    names.retain(|n| n != "INHERITED");
+    for b in ["ASCII_DIGIT", "ASCII_NONZERO_DIGIT", "ASCII_BIN_DIGIT", "ASCII_OCT_DIGIT", "ASCII_HEX_DIGIT", "ASCII_ALPHA_LOWER", "ASCII_ALPHA_UPPER", "ASCII_ALPHA", "ASCII_ALPHANUMERIC", "ASCII", "NEWLINE", "ANY"] {
+        names.push(b.to_string());
+    }
+    for (ci, chunk) in names.chunks(100).enumerate() {
+        let mut rules = vec![];
+        for n in chunk {
+            rules.push(RuleSpec::new(&format!("u_{}", n.to_lowercase()), 'N', n));
+        }
+        assert!(valid(&rules));
+        out.push(GSpec {
+            id: format!("unicode_{}", ci),
+            family: "unicode".into(),
+            quick: true,
+            rules,
+            alphabet: "".into(),
+            max_len: 0,
+            max_len_thorough: 0,
+            inputs: Some(vec!["<<ALL-SCALARS>>".to_string()]),
+            ..Default::default()
+        });
+    }
+}
+
+/// F-options: the same grammar under several option sets (C20).
+fn options(out: &mut Vec<GSpec>) {
+    let grammars: Vec<(&str, Vec<RuleSpec>, &str, usize)> = vec![
+        (
+            "rec",
+            vec![
+                RuleSpec::new("a", 'N', "\"a\" ~ b*"),
+                RuleSpec::new("b", 'N', "\"b\" ~ c?"),
+                RuleSpec::new("c", 'N', "a+"),
+                RuleSpec::new("d", 'S', "\"(\" ~ (d | a)* ~ \")\""),
+                RuleSpec::new("e", 'C', "a ~ d?"),
+                RuleSpec::new("f", 'X', "e | b ~ f?"),
+                RuleSpec::new("g", 'A', "(a | b)* ~ \"(\""),
+            ],
+            "ab()",
+            6,
+        ),
+        (
+            "ws",
+            vec![
+                RuleSpec::helper("WHITESPACE", 'S', "\" \""),
+                RuleSpec::helper("COMMENT", 'N', "\"#\""),
+                RuleSpec::new("x", 'N', "y ~ z"),
+                RuleSpec::new("y", 'C', "\"a\" ~ x?"),
+                RuleSpec::new("z", 'X', "\"b\"+ ~ (PUSH(y) ~ POP)?"),
+                RuleSpec::new("l", 'N', "\"a\" ~ l?"),
+                RuleSpec::new("m", 'N', "(l | n)*"),
+                RuleSpec::new("n", 'N', "\"b\" ~ m ~ \"b\""),
+                RuleSpec::new("p", 'N', "\"a\"+ ~ \"b\""),
+                RuleSpec::new("q", 'A', "\"a\"+ ~ \"b\"* ~ !\"a\""),
+                RuleSpec::new("r", 'N', "(\"a\" | \"b\")+ ~ EOI"),
+                RuleSpec::new("pl", 'N', "\"a\"+"),
+                RuleSpec::new("pm", 'N', "(\"a\" ~ \"b\")+"),
+                RuleSpec::new("pn", 'X', "l+ ~ \"b\"?"),
+            ],
+            "ab #",
+            6,
+        ),
+        (
+            "cnt",
+            vec![
+                RuleSpec::helper("WHITESPACE", 'S', "\" \""),
+                RuleSpec::new("c1", 'N', "\"a\"{2}"),
+                RuleSpec::new("c2", 'N', "\"a\"{1,3} ~ \"b\""),
+                RuleSpec::new("c3", 'N', "(\"a\" | \"b\"){,2}"),
+                RuleSpec::new("c4", 'N', "\"a\"{2,} ~ \"b\"?"),
+                RuleSpec::new("c5", 'A', "\"a\"{2} ~ \"b\"{1,2}"),
+                RuleSpec::new("c6", 'N', "c1{1,2}"),
+            ],
+            "ab ",
+            7,
+        ),
+    ];
+    let names = ["box_only_if_needed", "emit_rule_reference", "emit_tagged_node_reference", "do_not_emit_span", "no_warnings", "pest_optimizer = false"];
+    for (gname, rules, alphabet, len) in grammars {
+        assert!(valid(&rules));
+        let base_id = format!("options_{}_base", gname);
+        let mut sets: Vec<(bool, Vec<&str>)> = vec![];
+        for mask in 0u32..64 {
+            let set: Vec<&str> = (0..6).filter(|i| mask & (1 << i) != 0).map(|i| names[i]).collect();
+            let quick = mask.count_ones() <= 1 || mask == 63 || mask == 31;
+            sets.push((quick, set));
+        }
+        for (si, (quick, set)) in sets.iter().enumerate() {
+            let optimizer_off = set.contains(&"pest_optimizer = false");
+            let _ = optimizer_off;
+            // an empty option list would add emit_rule_reference in the writer: spell the default explicitly
+            let mut opts: Vec<String> = set.iter().map(|s| s.to_string()).collect();
+            if opts.is_empty() {
+                opts.push("no_warnings = false".to_string());
+            }
+            out.push(GSpec {
+                id: if si == 0 { base_id.clone() } else { format!("options_{}_{}", gname, si) },
+                family: "options".into(),
+                quick: *quick,
+                rules: rules.clone(),
+                alphabet: alphabet.into(),
+                max_len: len - 1,
+                max_len_thorough: len,
+                options: opts,
+                base_id: if si == 0 { String::new() } else { base_id.clone() },
+                no_pest: false,
+                ..Default::default()
+            });
+        }
+    }
+}
+
 pub fn all(out: &mut Vec<GSpec>) {
     let only = std::env::var("GRAMGEN_ONLY").ok();
     let want = |f: &str| only.as_deref().map_or(true, |o| o.split(',').any(|x| x == f));
@@ -610,5 +1057,23 @@ pub fn all(out: &mut Vec<GSpec>) {
     }
     if want("utf8") {
         utf8(out);
+    }
+    if want("tree") {
+        tree(out);
+    }
+    if want("mention") {
+        mention(out);
+    }
+    if want("arity") {
+        arity(out);
+    }
+    if want("sub") {
+        sub(out);
+    }
+    if want("unicode") {
+        unicode(out);
+    }
+    if want("options") {
+        options(out);
     }
 }
